@@ -1207,6 +1207,91 @@ int main(int argc, char **argv) {
   add_soup_space(R, "soup_F3_corner_f32x3_pos3_face0nondeg", {3, A3, {{0, false}}, true}, false, true);
   for (int N = 0; N <= 4; ++N) add_cloud_space(R, N);
 
+  // One MeshStripifier object reused for several meshes and both output modes: every sequence of up to 3 (quick) / 4 (thorough)
+  // calls over a pool of 7 meshes x 2 modes; each call must give exactly the indices of the same call on a fresh object, and those
+  // must decode (reference strip decoder) to the mesh's oriented triangles.
+  {
+    typedef std::vector<std::array<uint32_t, 3>> Faces;
+    static const std::vector<Faces> pool = {
+        {{0, 1, 2}},                                                       // one triangle (one strip, odd face count)
+        {{0, 1, 2}, {3, 4, 5}, {6, 7, 8}},                                  // three pieces (three strips, odd)
+        {{0, 1, 2}, {2, 1, 3}, {4, 5, 6}, {6, 5, 7}},                       // two quads (two strips, even)
+        {{0, 1, 2}, {2, 1, 3}, {2, 3, 4}, {5, 6, 7}},                       // strip of three + one triangle
+        {{0, 1, 2}, {2, 1, 3}},                                             // one quad
+        {{0, 1, 2}, {2, 1, 3}, {2, 3, 4}, {5, 6, 7}, {7, 6, 8}, {9, 10, 11}, {12, 13, 14}, {14, 13, 15}, {14, 15, 16}},  // four pieces, nine faces
+        {{0, 1, 2}, {0, 2, 3}, {0, 3, 4}, {0, 4, 1}, {5, 6, 7}},            // closed fan + one triangle
+    };
+    static std::vector<std::unique_ptr<Mesh>> meshes;
+    for (const Faces &fs : pool) {
+      uint32_t np = 0;
+      for (auto &f : fs) np = std::max(np, std::max(f[0], std::max(f[1], f[2])) + 1);
+      std::unique_ptr<Mesh> m(new Mesh());
+      m->set_num_points(np);
+      GeometryAttribute ga;
+      ga.Init(GeometryAttribute::POSITION, nullptr, 3, DT_FLOAT32, false, 12, 0);
+      const int aid = m->AddAttribute(ga, true, np);
+      for (uint32_t i = 0; i < np; ++i) {
+        const float v[3] = {(float)i, (float)(i * i % 7), (float)(i % 3)};
+        m->attribute(aid)->SetAttributeValue(AttributeValueIndex(i), v);
+      }
+      for (auto &f : fs) m->AddFace({{PointIndex(f[0]), PointIndex(f[1]), PointIndex(f[2])}});
+      meshes.push_back(std::move(m));
+    }
+    const uint64_t ops = pool.size() * 2;
+    auto run_one = [](MeshStripifier &st, int op, std::vector<uint32_t> *out) {
+      const Mesh &mesh = *meshes[op / 2];
+      out->clear();
+      return (op & 1) ? st.GenerateTriangleStripsWithDegenerateTriangles(mesh, std::back_inserter(*out))
+                      : st.GenerateTriangleStripsWithPrimitiveRestart(mesh, uint32_t(0xffffffffu), std::back_inserter(*out));
+    };
+    for (int depth : {3, 4}) {
+      mc::Space sp;
+      sp.name = "stripifier_histories_depth" + std::to_string(depth);
+      sp.size = 1;
+      for (int i = 0; i < depth; ++i) sp.size *= ops;
+      sp.quick = depth == 3;
+      sp.thorough = true;
+      auto hist_text = [=](uint64_t idx) {
+        std::string h;
+        for (int step = 0; step < depth; ++step) {
+          const int op = idx % ops;
+          idx /= ops;
+          h += (step ? " ; " : "") + std::string("mesh") + std::to_string(op / 2) + ((op & 1) ? ":degenerate" : ":restart");
+        }
+        return h;
+      };
+      sp.run = [=](uint64_t idx, mc::Ctx &ctx) {
+        MeshStripifier shared;
+        uint64_t k = idx;
+        for (int step = 0; step < depth; ++step) {
+          const int op = k % ops;
+          k /= ops;
+          std::vector<uint32_t> got, ref, tris, expect;
+          const bool ok = run_one(shared, op, &got);
+          MeshStripifier fresh;
+          const bool ok2 = run_one(fresh, op, &ref);
+          ctx.count("stripifier_calls_in_histories");
+          if (ok != ok2 || got != ref) {
+            ctx.fail("strip:reused-object-differs-from-fresh-object|" + std::string((op & 1) ? "degenerate" : "restart"),
+                     "one MeshStripifier: " + hist_text(idx) + " (call " + std::to_string(step + 1) + "): " + show_idx(got) + " fresh: " + show_idx(ref));
+            return;
+          }
+          int skipped = 0;
+          decode_strips(got, !(op & 1), 0xffffffffu, &tris, &skipped);
+          for (auto &f : pool[op / 2]) expect.push_back(canon3(f[0], f[1], f[2]));
+          std::sort(expect.begin(), expect.end());
+          if (tris != expect) {
+            ctx.fail("strip:history-triangles-differ|" + std::string((op & 1) ? "degenerate" : "restart"), "one MeshStripifier: " + hist_text(idx) + ": " + show_idx(got));
+            return;
+          }
+        }
+        ctx.nontrivial_unique();
+      };
+      sp.describe = [=](uint64_t idx) { return "one MeshStripifier object: " + hist_text(idx); };
+      R.add(sp);
+    }
+  }
+
   // vacuity guards: input classes, counted before the oracles run (so that a
   // defect that makes every case of a class fail is reported as a violation,
   // not as an empty class); the outcome counters (faces removed per reason,
